@@ -68,7 +68,12 @@ fn gmt_forms() -> Vec<(String, i32)> {
 }
 
 fn judge_time(run: &Run, want: &Want, v: &mut Verdict) {
-    match (run.single(), want) {
+    // the line under test is the last line of the text
+    let slot = match run {
+        Run::Done(o) if o.status => o.slots.last(),
+        _ => None,
+    };
+    match (slot, want) {
         (Some(Slot::Ok { val: Val::Time { utc, zone, off }, out }), Want::Time { utc_mod, zone: wz, off: woff }) => {
             if m(*utc) != *utc_mod {
                 v.violation = Some("wrong instant (mod 24 h)".into());
@@ -110,7 +115,7 @@ impl Prop for C11 {
             f.push(Family::new(
                 "literals",
                 Mode::Full,
-                "H:MM[:SS] for every hour 0..23 (with and without leading zero) x minutes [00, 05, 30, 59] x seconds [none, :00, :59], and am/pm forms for 1..11 ('1 pm', '1pm', '1:30 PM', '11:05 am'), under each default zone set through set_timezone",
+                "H:MM[:SS] for every hour 0..23 (with and without leading zero) x minutes [00, 05, 30, 59] x seconds [none, :00, :59], and am/pm forms for 1..11 ('1 pm', '1pm', '1:30 PM', '11:05 am', '1:20:30 pm', '1:20:30PM', '1:30  pm' with two blanks), under each default zone set through set_timezone",
                 move |ch| {
                     let (tzset, label, off) = *ch.pick(&dz);
                     let ampm = ch.flag();
@@ -128,7 +133,7 @@ impl Prop for C11 {
                     } else {
                         let h = 1 + ch.choose(11) as i64;
                         let pm = ch.flag();
-                        let form = ch.choose(4);
+                        let form = ch.choose(7);
                         let mer = match (pm, form % 2) {
                             (true, 0) => "pm",
                             (true, _) => "PM",
@@ -139,9 +144,14 @@ impl Prop for C11 {
                             0 => (format!("{} {}", h, mer), 0),
                             1 => (format!("{}{}", h, mer), 0),
                             2 => (format!("{}:30 {}", h, mer), 30),
-                            _ => (format!("{}:05{}", h, mer), 5),
+                            3 => (format!("{}:05{}", h, mer), 5),
+                            // seconds together with am/pm; more than one blank in front of am/pm
+                            4 => (format!("{}:20:30 {}", h, mer), 20),
+                            5 => (format!("{}:20:30{}", h, mer), 20),
+                            _ => (format!("{}:30  {}", h, mer), 30),
                         };
-                        (t, hms(if pm { h + 12 } else { h }, mi, 0))
+                        let sec = if form == 4 || form == 5 { 30 } else { 0 };
+                        (t, hms(if pm { h + 12 } else { h }, mi, sec))
                     };
                     let line = LineCase::new(text, Expect::Unspecified, "literal").with_cfg(cfg_tz(tzset));
                     Some(Case::Line { line, want: Want::Time { utc_mod: m(wall - off as i64 * 60), zone: label.to_string(), off } })
@@ -286,6 +296,27 @@ impl Prop for C11 {
                 },
             ));
         }
+        f.push(Family::new(
+            "difference-with-zones",
+            Mode::Full,
+            "'T1 [Z1] to T2 [Z2]' for T in [0:30, 10:00, 12:00, 23:15] and Z in [none, EST, CET, GMT+5:30] on either side, written on one line and with both ends held in variables ('a = T1 Z1 / b = T2 Z2 / a to b'): the absolute difference of the two instants (each wall time on the clock's date in its own zone)",
+            move |ch| {
+                let times = [("0:30", hms(0, 30, 0)), ("10:00", hms(10, 0, 0)), ("12:00", hms(12, 0, 0)), ("23:15", hms(23, 15, 0))];
+                let zs: [(&str, i64); 4] = [("", 0), ("EST", -300), ("CET", 60), ("GMT+5:30", 330)];
+                let (ta, wa) = *ch.pick(&times);
+                let (za, oa) = *ch.pick(&zs);
+                let (tb, wb) = *ch.pick(&times);
+                let (zb, ob) = *ch.pick(&zs);
+                let via_vars = ch.flag();
+                let side = |t: &str, z: &str| if z.is_empty() { t.to_string() } else { format!("{} {}", t, z) };
+                let (a, b) = (side(ta, za), side(tb, zb));
+                let text = if via_vars { format!("a = {}\nb = {}\na to b", a, b) } else { format!("{} to {}", a, b) };
+                let want = ((wa - oa * 60) - (wb - ob * 60)).abs();
+                let tag = if !via_vars && !za.is_empty() && !zb.is_empty() { "difference-both-zoned-inline" } else { "difference-zoned" };
+                let line = LineCase::new(text, Expect::Unspecified, tag);
+                Some(Case::Line { line, want: Want::Duration(want) })
+            },
+        ));
         // (e2) switching the default zone of a live calculator ----------------------------------
         {
             let ds = tier.pick(3, 4);
